@@ -468,6 +468,7 @@ type vPuppet struct {
 	inEnded     int
 	refuse      bool
 	emptyFrames int
+	forgotten   []network.Stream
 }
 
 // NewPuppet creates a raw peer that registers handlers for protos (its
@@ -489,6 +490,17 @@ func (p *vPuppet) ID() peer.ID { return p.h.ID() }
 func (p *vPuppet) shutdown() {
 	p.cancel()
 	p.mu.Lock()
+	for _, s := range p.forgotten {
+		s.Reset()
+	}
+	for _, s := range p.out {
+		s.Reset()
+	}
+	for _, l := range p.in {
+		for _, s := range l {
+			s.Reset()
+		}
+	}
 	if p.stalled {
 		p.stalled = false
 		close(p.unstall)
@@ -727,6 +739,14 @@ func (p *vPuppet) CloseIn(node peer.ID, reset bool) {
 // ForgetStreams drops the puppet's references to its streams (after a disconnect).
 func (p *vPuppet) ForgetStreams() {
 	p.mu.Lock()
+	// (kept aside: a stream that was being opened while its connection went down is not always torn down by the
+	// in-memory network; shutdown resets them so that nobody is left reading from them)
+	for _, s := range p.out {
+		p.forgotten = append(p.forgotten, s)
+	}
+	for _, l := range p.in {
+		p.forgotten = append(p.forgotten, l...)
+	}
 	p.out = map[peer.ID]network.Stream{}
 	p.in = map[peer.ID][]network.Stream{}
 	p.mu.Unlock()
